@@ -61,6 +61,9 @@ def corpus(quick: bool) -> list[list[str]]:
     # an output was driven
     V, Bm = ("V", ()), ("Boom", ())
     add([(Bm,), (M, Bm), (V, Bm), (V, W, Bm), (("Wa", (Bm,)), V)])
+    # a tag simulated to another value and then to the value it really has (the shown value changes both times), and back off
+    S7, S5, So = ("SiL7", ()), ("SiL", ()), ("SoL", ())
+    add([(S7, S5), (S7, W, S5), (S7, S5, S7), (S7, W, S5, W, So)])
     return out
 
 
